@@ -238,6 +238,22 @@ class _Watchdog(BaseException):
     pass
 
 
+_FROZEN = False
+
+
+def _freeze_inherited_heap():
+    """fw.pmap forks its workers from a parent that holds the whole case list (millions of container objects in the thorough
+    tier).  A full (generation-2) collection in a worker would walk and dirty all of those copy-on-write pages — observed as
+    10..18 s stalls inside one case, i.e. false watchdog hits.  gc.freeze() (made for exactly this) parks everything that
+    exists now in the permanent generation; later collections only look at what the cases themselves allocate."""
+    global _FROZEN
+    if not _FROZEN:
+        import gc
+
+        gc.freeze()
+        _FROZEN = True
+
+
 def _preimport():
     """everything the adapters import, loaded BEFORE the watchdog is armed: an alarm in the middle of an import would
     leave half-initialised modules behind (and a loaded machine can take seconds to import asyncio)"""
@@ -257,6 +273,7 @@ def alarm_timeout(fn, args=(), timeout=WATCHDOG_S):
         raise _Watchdog()
 
     _preimport()
+    _freeze_inherited_heap()
     old = signal.signal(signal.SIGALRM, on_alarm)
     signal.setitimer(signal.ITIMER_REAL, timeout)
     try:
